@@ -31,7 +31,8 @@ Fresh(cfg) == [cfg |-> cfg,
                dlcaller |-> FALSE,  \* some ForceFlush was called with a ctx that carries a deadline
                sdCalled |-> FALSE,  \* some Shutdown call has begun
                sdRet |-> FALSE,     \* some Shutdown call has returned nil
-               sdRetErr |-> FALSE,  \* some Shutdown call whose ctx was done has returned an error
+               sdRetErr |-> FALSE,  \* some Shutdown call has returned an error
+               sdProcs |-> {},      \* the Shutdown calls made so far
                expShut |-> FALSE]   \* exporter.Shutdown was called
 
 Put(f, k, v) == [x \in (DOMAIN f) \cup {k} |-> IF x = k THEN v ELSE f[x]]
@@ -41,8 +42,9 @@ SeqToSet(s) == {s[i] : i \in 1..Len(s)}
    like a span enqueued after the drain (D4) they are lost silently; their End returned after a Shutdown
    call had begun, so they are owed only to calls made later (classified as D1 / D4 there). *)
 Missing(m, S) == (((S \ m.handed) \ m.dropped) \ m.ignored) \ (IF m.cfg.kind = "simple" THEN m.raced ELSE {})
-(* the drain started by a Shutdown whose ctx expired is still running in the background *)
-DrainOutlives(m) == m.sdRetErr /\ ~m.expShut
+(* the ctx of some Shutdown call is done and the exporter has not been shut down yet: the drain that call
+   started (or waited for) may still be running in the background although the call has returned (D5) *)
+DrainOutlives(m) == m.sdProcs \cap m.ctxdone # {} /\ ~m.expShut
 
 (* Step(m, e) = <<next monitor state, set of violated clauses (records)>> *)
 Step(m, e) ==
@@ -51,7 +53,8 @@ Step(m, e) ==
                                                    !.raced = IF m.sdCalled THEN @ \cup {e.id} ELSE @], {}>>
     [] e.ev = "Call" /\ e.op = "FF" -> <<[m EXCEPT !.snap = Put(@, e.proc, m.ended),
                                                    !.dlcaller = (@ \/ e.ctx = "deadline")], {}>>
-    [] e.ev = "Call" /\ e.op = "SD" -> <<[m EXCEPT !.snap = Put(@, e.proc, m.ended), !.sdCalled = TRUE], {}>>
+    [] e.ev = "Call" /\ e.op = "SD" -> <<[m EXCEPT !.snap = Put(@, e.proc, m.ended), !.sdCalled = TRUE,
+                                                   !.sdProcs = @ \cup {e.proc}], {}>>
     [] e.ev = "CtxDone" -> <<[m EXCEPT !.ctxdone = @ \cup {e.proc}], {}>>
     [] e.ev = "FFEarly" -> <<[m EXCEPT !.early = @ \cup {e.proc}],
                              IF m.sdCalled THEN {} ELSE {[kind |-> "early-exit-without-shutdown", proc |-> e.proc]}>>
@@ -64,7 +67,7 @@ Step(m, e) ==
                      proc |-> e.proc, missing |-> Missing(m, m.snap[e.proc])]}
               ELSE {}>>
     [] e.ev = "Ret" /\ e.op = "SD" ->
-         <<[m EXCEPT !.sdRet = (@ \/ e.err = ""), !.sdRetErr = (@ \/ (e.err # "" /\ e.proc \in m.ctxdone))],
+         <<[m EXCEPT !.sdRet = (@ \/ e.err = ""), !.sdRetErr = (@ \/ e.err # "")],
            IF e.err = "" /\ Missing(m, m.snap[e.proc]) # {}
            THEN {[kind |-> IF DrainOutlives(m) THEN "shutdown-missed-drain-outlives-expired-shutdown"
                            ELSE IF Missing(m, m.snap[e.proc]) \subseteq m.raced THEN "shutdown-missed-raced"
@@ -78,8 +81,9 @@ Step(m, e) ==
            \cup (IF Len(e.ids) > m.cfg.maxbatch THEN {[kind |-> "batch-too-large", n |-> Len(e.ids)]} ELSE {})
            \cup (IF m.inflight THEN {[kind |-> "concurrent-export"]} ELSE {})
            \cup (IF m.expShut THEN {[kind |-> "export-after-shutdown"]}
+                 ELSE IF ~(m.sdRet \/ m.sdRetErr) THEN {}
                  ELSE IF DrainOutlives(m) THEN {[kind |-> "export-after-expired-shutdown"]}
-                 ELSE IF m.sdRet THEN {[kind |-> "export-after-shutdown"]} ELSE {})
+                 ELSE {[kind |-> "export-after-shutdown"]})
            \cup (IF ids \cap (m.dropped \cup m.ignored \cup m.abandoned) # {} THEN {[kind |-> "exported-a-dropped-span"]} ELSE {})
            \* ExportTimeout > 0 <=> the exporter's ctx carries a deadline (a ForceFlush export inherits its caller's)
            \cup (IF m.cfg.kind = "batch" /\ m.cfg.exportTimeout /\ ~e.deadline THEN {[kind |-> "export-without-deadline"]} ELSE {})
